@@ -77,6 +77,7 @@ pub struct Inner {
     pub fns: Vec<FnSpec>,
     behaviour: HashMap<(usize, u32), Beh>,
     per_task_calls: HashMap<usize, u32>,
+    per_task_fn_calls: HashMap<(usize, usize), u32>,
     ordinals: HashMap<(usize, usize, String), u32>,
     next_inv: u64,
     wakers: HashMap<u64, Waker>,
@@ -101,6 +102,7 @@ impl World {
             fns,
             behaviour: b,
             per_task_calls: HashMap::new(),
+            per_task_fn_calls: HashMap::new(),
             ordinals: HashMap::new(),
             next_inv: 0,
             wakers: HashMap::new(),
@@ -301,7 +303,15 @@ impl UserFunction for ProbeFn {
     }
 
     fn cacheable(&self) -> bool {
-        self.cacheable
+        // possibly dynamic: cacheable only for the first n invocations of the current evaluation
+        let w = self.world.lock();
+        match w.fns.get(self.idx).and_then(|f| f.cacheable_first) {
+            Some(n) => {
+                let task = w.current.map(|c| c.0).unwrap_or(usize::MAX);
+                w.per_task_fn_calls.get(&(task, self.idx)).copied().unwrap_or(0) < n
+            }
+            None => self.cacheable,
+        }
     }
 }
 
@@ -346,6 +356,7 @@ impl Future for ProbeCall {
                 *o += 1;
                 v
             };
+            *w.per_task_fn_calls.entry((task, this.f)).or_insert(0) += 1;
             let inv = w.next_inv;
             w.next_inv += 1;
             w.stats.invocations += 1;
